@@ -40,7 +40,7 @@ def full_differs_iff_witness(tx: Obj(CTransaction)):
 
 
 @contract('bitcoin.core:CTransaction.GetTxid', prop=P)
-def get_txid(self: Obj(OneOf(CTransaction, CMutableTransaction))):
+def get_txid(self: Obj(OneOf(CTransaction, CMutableTransaction))) -> Bytes:
     """txid = H(H(stripped serialisation)), on both branches of the witness test"""
     requires(valid_tx(self))
     unfold(valid_wits(()))
@@ -48,7 +48,7 @@ def get_txid(self: Obj(OneOf(CTransaction, CMutableTransaction))):
     unfold(valid_txins(self.vin))
     cases(enc_wits(self.wit.vtxinwit) == b'', enc_wits(self.wit.vtxinwit) != b'')
     use(wits_empty(self.wit.vtxinwit), when=enc_wits(self.wit.vtxinwit) == b'')
-    option(auto_unfold=False)
+    option(auto_unfold=False, callable=True)
     hint('post', 'post', unfold(enc_tx(self, False)))
     hint('post', 'post', unfold(enc_tx(self, True)))
     hint('post', 'post', unfold(all_null(self.wit.vtxinwit)))
@@ -62,8 +62,9 @@ def tx_gethash_mutable(self: Obj(CMutableTransaction)):
 
 
 @contract('bitcoin.core.serialize:ImmutableSerializable.GetHash', name='tx_gethash_immutable', prop=P)
-def tx_gethash_immutable(self: Obj(CTransaction)):
+def tx_gethash_immutable(self: Obj(CTransaction)) -> Bytes:
     requires(valid_tx(self))
+    option(callable=True)
     ensures(result == wtxid_of(self))
 
 
